@@ -1,6 +1,7 @@
 //! C23 — `?` and `!` follow option/result semantics.
 //!
-//! Universe: carrier {option<int>, result<int,int>} × operator {`?`, `!`} × input {success, failure}
+//! Universe: carrier {option, result<_,int>} × payload of the tried value {int, void} × payload of the enclosing
+//! function's return type {int, void} (for `?`) × operator {`?`, `!`} × input {success, failure}
 //! × syntactic position of `e?` / `e!` (statement, void-payload statement, let rhs, left / right operand at
 //! pending-operand depth 1..D, argument i of a call, nested call, array / tuple / struct element, index,
 //! if condition, branch value, match scrutinee, while body, for body, assignment and compound-assignment
@@ -32,8 +33,12 @@ enum Op {
 }
 #[derive(Clone, Copy, PartialEq, Eq, Debug)]
 enum Enc {
+    /// the carrier with an int payload
     Carrier,
     Int,
+    /// the carrier with a void payload (`option<void>` / `result<void, int>`): the payload type of the
+    /// enclosing function's return type then differs in void-ness from the tried value's payload type
+    CarrierVoid,
 }
 
 const SHARED: &str = "fn tr(k: int) -> int {\nvh_emit_int(k)\nk\n}\n\
@@ -46,7 +51,9 @@ fn idf(a: int) -> int {\na\n}\n\
 type Tri = {\nf1: int\nf2: int\nf3: int\n}\n\
 fn showo(o: option<int>) -> int {\nmatch o {\n.some(v) -> vh_emit_int(1000 + v)\n.none -> vh_emit_int(-100)\n}\n1\n}\n\
 fn showr(r: result<int, int>) -> int {\nmatch r {\n.ok(v) -> vh_emit_int(1000 + v)\n.err(e) -> {\nvh_emit_int(-200)\nvh_emit_int(e)\n}\n}\n1\n}\n\
-fn showi(v: int) -> int {\nvh_emit_int(1000 + v)\n1\n}";
+fn showi(v: int) -> int {\nvh_emit_int(1000 + v)\n1\n}\n\
+fn showov(o: option<void>) -> int {\nmatch o {\n.some(_) -> vh_emit_int(1000)\n.none -> vh_emit_int(-100)\n}\n1\n}\n\
+fn showrv(r: result<void, int>) -> int {\nmatch r {\n.ok(_) -> vh_emit_int(1000)\n.err(e) -> {\nvh_emit_int(-200)\nvh_emit_int(e)\n}\n}\n1\n}";
 
 /// the model's machine: a trace and a stop state; after a stop nothing more is recorded
 struct M {
@@ -83,6 +90,8 @@ impl M {
 enum Pos {
     Stmt,
     StmtVoid,
+    /// a void-payload `e?` statement inside a block that is the right operand of `+` (a pending operand is live)
+    StmtVoidInOperandBlock,
     LetRhs,
     LeftOperand,
     RightOperand(usize),
@@ -105,7 +114,7 @@ enum Pos {
 }
 
 fn positions(tier: Tier) -> Vec<Pos> {
-    let mut v = vec![Pos::Stmt, Pos::StmtVoid, Pos::LetRhs, Pos::LeftOperand];
+    let mut v = vec![Pos::Stmt, Pos::StmtVoid, Pos::StmtVoidInOperandBlock, Pos::LetRhs, Pos::LeftOperand];
     for d in 1..=tier.pick(2, 4) {
         v.push(Pos::RightOperand(d));
     }
@@ -169,17 +178,28 @@ impl Cell {
             Carrier::Res => "result<int, int>",
         }
     }
+    fn carrier_void_ty(&self) -> &'static str {
+        match self.carrier {
+            Carrier::Opt => "option<void>",
+            Carrier::Res => "result<void, int>",
+        }
+    }
     fn ret(&self) -> &'static str {
         match self.enc {
             Enc::Carrier => self.carrier_ty(),
             Enc::Int => "int",
+            Enc::CarrierVoid => self.carrier_void_ty(),
         }
     }
+    /// the normal return of the function under test; a void-payload function emits 2000 + value first, so the
+    /// value the operator produced is still observed
     fn wrap(&self, e: &str) -> String {
         match (self.enc, self.carrier) {
             (Enc::Int, _) => e.to_string(),
             (Enc::Carrier, Carrier::Opt) => format!("option.some({e})"),
             (Enc::Carrier, Carrier::Res) => format!("result.ok({e})"),
+            (Enc::CarrierVoid, Carrier::Opt) => format!("vh_emit_int(2000 + {e})\noption.some(nil)"),
+            (Enc::CarrierVoid, Carrier::Res) => format!("vh_emit_int(2000 + {e})\nresult.ok(nil)"),
         }
     }
     fn fname(&self) -> String {
@@ -197,6 +217,7 @@ impl Cell {
             match self.enc {
                 Enc::Carrier => "c",
                 Enc::Int => "i",
+                Enc::CarrierVoid => "v",
             },
             if self.arity3 { "_a3" } else { "" }
         )
@@ -217,6 +238,13 @@ impl Cell {
                 m.src(5, g);
                 m.emit(901);
                 (format!("{}\nvh_emit_int(901)\nlet v = 1", self.sv("5", "g")), 1)
+            }
+            Pos::StmtVoidInOperandBlock => {
+                m.t(7);
+                m.src(5, g);
+                m.t(8);
+                m.emit(901);
+                (format!("let v = tr(7) + {{\n{}\ntr(8)\n}}\nvh_emit_int(901)", self.sv("5", "g")), 15)
             }
             Pos::LetRhs => {
                 m.src(5, g);
@@ -380,18 +408,24 @@ impl Cell {
             return match self.op {
                 Op::Try => {
                     // lambda returns the carrier; the outer function continues after the call and returns the lambda's result
+                    let void = self.enc == Enc::CarrierVoid;
+                    if void {
+                        m.emit(2006);
+                    }
                     let lam_result: Result<i64, i64> = match m.stop.take() {
                         Some(Ok(k)) => Err(k),
-                        _ => Ok(6),
+                        _ => Ok(if void { 0 } else { 6 }),
                     };
                     m.emit(904);
                     let text = format!(
                         "{head}let lam: (int, int) -> {ct} = (y, z) -> {{\nlet w = {x}\nvh_emit_int(901)\n{}\n}}\nlet r = lam(5, 3)\nvh_emit_int(904)\nr\n}}",
-                        match self.carrier {
-                            Carrier::Opt => "option.some(w + 1)",
-                            Carrier::Res => "result.ok(w + 1)",
+                        match (void, self.carrier) {
+                            (false, Carrier::Opt) => "option.some(w + 1)",
+                            (false, Carrier::Res) => "result.ok(w + 1)",
+                            (true, Carrier::Opt) => "vh_emit_int(2000 + w + 1)\noption.some(nil)",
+                            (true, Carrier::Res) => "vh_emit_int(2000 + w + 1)\nresult.ok(nil)",
                         },
-                        ct = self.carrier_ty()
+                        ct = self.ret()
                     );
                     (text, m.tr, Some(lam_result))
                 }
@@ -409,9 +443,13 @@ impl Cell {
         }
         let (stmts, v) = self.body_and_model(&mut m);
         m.emit(999);
+        let void = self.enc == Enc::CarrierVoid;
+        if void {
+            m.emit(2000 + v);
+        }
         let text = format!("{head}{stmts}\nvh_emit_int(999)\n{}\n}}", self.wrap("v"));
         let res = match m.stop {
-            None => Some(Ok(v)),
+            None => Some(Ok(if void { 0 } else { v })),
             Some(Ok(k)) => Some(Err(k)),
             Some(Err(())) => None,
         };
@@ -434,8 +472,10 @@ impl Cell {
         let (ftext, ftrace, res) = self.function();
         let show = match (self.enc, self.carrier) {
             (Enc::Int, _) => "showi",
-            (_, Carrier::Opt) => "showo",
-            (_, Carrier::Res) => "showr",
+            (Enc::Carrier, Carrier::Opt) => "showo",
+            (Enc::Carrier, Carrier::Res) => "showr",
+            (Enc::CarrierVoid, Carrier::Opt) => "showov",
+            (Enc::CarrierVoid, Carrier::Res) => "showrv",
         };
         // the caller holds a pending operand (40) across the call
         let call_args = if self.arity3 { format!("1, {}, 2", self.good) } else { format!("{}", self.good) };
@@ -466,7 +506,7 @@ fn cells(tier: Tier) -> Vec<Cell> {
     for arity3 in [false, true] {
         for pos in positions(tier) {
             for carrier in [Carrier::Opt, Carrier::Res] {
-                for (op, enc) in [(Op::Try, Enc::Carrier), (Op::Unwrap, Enc::Carrier), (Op::Unwrap, Enc::Int)] {
+                for (op, enc) in [(Op::Try, Enc::Carrier), (Op::Unwrap, Enc::Carrier), (Op::Unwrap, Enc::Int), (Op::Try, Enc::CarrierVoid)] {
                     for good in [true, false] {
                         v.push(Cell { pos, carrier, op, enc, good, arity3 });
                     }
@@ -503,8 +543,8 @@ impl Prop for C23 {
         cells(tier).len().div_ceil(PER_UNIT) + 1
     }
     fn expected_evaluations(&self, tier: Tier) -> Option<u64> {
-        // positions × carriers × (op, enclosing) × inputs + unasserted programs
-        Some(positions(tier).len() as u64 * 2 * 3 * 2 * 2 + unasserted().len() as u64)
+        // arities × positions × carriers × (op, enclosing) × inputs + unasserted programs
+        Some(2 * positions(tier).len() as u64 * 2 * 4 * 2 + unasserted().len() as u64)
     }
     fn run_unit(&self, tier: Tier, unit: usize, out: &mut UnitOut) {
         let all = cells(tier);
@@ -528,12 +568,18 @@ impl Prop for C23 {
                 out.sample(json!({"case": case.name, "program": case.standalone(), "expected": format!("{:?}", cw[k].1)}));
             }
             let stratum = format!(
-                "{}{}|{}",
+                "{}{}|payload tried={} enclosing={}|{}",
                 match cell.carrier {
                     Carrier::Opt => "option",
                     Carrier::Res => "result",
                 },
                 cell.opc(),
+                if matches!(cell.pos, Pos::StmtVoid | Pos::StmtVoidInOperandBlock) { "void" } else { "int" },
+                match cell.enc {
+                    Enc::Carrier => "int",
+                    Enc::CarrierVoid => "void",
+                    Enc::Int => "none(returns int)",
+                },
                 if cell.good { "success" } else { "failure" }
             );
             judge(out, &stratum, case, r, &cw[k].1);
@@ -541,7 +587,9 @@ impl Prop for C23 {
     }
     fn rule(&self, tier: Tier) -> String {
         format!(
-            "carrier {{option<int>, result<int,int>}} × (operator, enclosing return type) {{(?, carrier), (!, carrier), (!, int)}} × input {{success, failure}} × arity of the enclosing function {:?} (the in-lambda position uses a two-parameter lambda) × {} positions {:?}; \
+            "carrier {{option, result<_,int>}} × (operator, enclosing return type) {{(?, carrier<int>), (!, carrier<int>), (!, int), (?, carrier<void>)}} × tried payload {{int; void at the positions StmtVoid and StmtVoidInOperandBlock}} \
+             (so for `?` the payload types of the tried value and of the enclosing function's return type range over {{int, void}}², e.g. a `result<void, int>` function doing `let v = sr(5, g)?`, an `option<int>` function doing `sov(5, g)?`; \
+             a void-payload function emits 2000 + the value before returning, so the value the operator produced is always used afterwards) × input {{success, failure}} × arity of the enclosing function {:?} (the in-lambda position uses a two-parameter lambda) × {} positions {:?}; \
              sources so/sr(k, good) emit k when evaluated, other operands are tr(k), a trace emit follows every statement and 999 precedes the normal return; the caller evaluates \
              `tr(40) + show(f(input))` so a pending operand is live across the early return, and emits 41 afterwards. Oracle: transcription of each template: `?` on failure returns none / err(k+500) from the \
              enclosing function (for the in-lambda position: from the lambda; the outer function continues) with nothing after it evaluated; `!` on failure ends the program with runtime error kind panic after exactly \
